@@ -27,6 +27,16 @@ def unparse(node: tp.Optional[ast.AST]) -> str:
 
 def norm(node: tp.Optional[ast.AST]) -> str:
     '''Normalised statement text: the key for findings (never a line number).'''
+    if node is None:
+        return ' '.join(unparse(node).split())
+    # keyword arguments are unordered for our purposes (their values are side-effect free in the analysed code): sort them by name
+    if any(isinstance(c, ast.Call) and len(c.keywords) > 1 for c in ast.walk(node)):
+        import copy
+        node = copy.deepcopy(node)
+        for c in ast.walk(node):
+            if isinstance(c, ast.Call) and len(c.keywords) > 1:
+                named = sorted((k for k in c.keywords if k.arg is not None), key=lambda k: k.arg)
+                c.keywords = named + [k for k in c.keywords if k.arg is None]
     return ' '.join(unparse(node).split())
 
 
